@@ -317,7 +317,9 @@ def model_check(name, module, cfg, workers=8, timeout=1800, must_cover=None, env
 
 def _validate_one(path, timeout):
     n = sum(1 for _ in open(path))
-    r = run_tlc("LruTrace.tla", "LruTrace.cfg", env={"VERIF_TRACE_FILE": path}, workers=1, timeout=timeout)
+    # -Xss: traces of the repository's own tests hold hundreds of goroutines; TLC's recursive evaluation needs the stack
+    r = run_tlc("LruTrace.tla", "LruTrace.cfg", env={"VERIF_TRACE_FILE": path, "JAVA_TOOL_OPTIONS": (os.environ.get("JAVA_TOOL_OPTIONS", "") + " -Xss512m").strip()},
+                workers=1, timeout=timeout)
     res = {"lines": n, "states": r.generated, "wall_s": round(r.wall_s, 2), "accepted": False}
     if r.ok:
         if r.depth != n + 1:
